@@ -787,7 +787,10 @@ fn verif_c07_window() {
                 let mut ns = copy_of(*g, *m, kv);
                 ns.chitchat_id = id(i as u16 + 1);
                 for (k, v) in ns.key_values.iter_mut() {
-                    v.value = if k == "big" { format!("{:z<400}", v.value) } else { format!("{:y<20}", v.value) };
+                    // near-incompressible 7-bit content, so that a byte too many is not hidden by zstd
+                    let n = if k == "big" { 400 } else { 20 };
+                    let mut rng = Rng64((i as u64 + 1) * 1000 + v.version);
+                    v.value = (0..n).map(|_| (33 + rng.below(94) as u8) as char).collect();
                 }
                 cs.node_states.insert(ns.chitchat_id.clone(), ns);
             }
